@@ -88,6 +88,13 @@ Theorem C14_inner_propstat : forall m nd path r v,
 Proof. exact report_inner_propstat. Qed.
 Print Assumptions C14_inner_propstat.
 
+(** Response.DecodeProp with several values succeeds exactly when every one of them is
+    reported with a success status and decodes (no public method passes more than one;
+    the harness calls it directly). *)
+Theorem C14_decode_prop_all_values : forall r, c_is_ok (decode_pair r) = spec_pair_ok r.
+Proof. exact decode_pair_ok. Qed.
+Print Assumptions C14_decode_prop_all_values.
+
 (** The executable specification used by the oracle is the declarative one. *)
 Theorem C14_spec_exec : forall m path s o, spec_ok m path s o = true <-> meets_spec m path s o.
 Proof. exact spec_ok_meets. Qed.
